@@ -29,7 +29,7 @@ Section Bridge.
   Proof.
     intros Hns H0 Hne H. rewrite accumulate_dir in H.
     assert (He : is_empty_kust (ns_only ns) ents = false).
-    { unfold is_empty_kust, dirs_empty, ns_only, mkPDirs, mkPDirsG. cbn [pd_ns]. destruct ents; [|reflexivity].
+    { unfold is_empty_kust, dirs_empty, ns_only, mkPDirs, mkPDirsG, mkPDirsX. cbn [pd_ns]. destruct ents; [|reflexivity].
       destruct (String.eqb ns "") eqn:E; [apply String.eqb_eq in E; contradiction|reflexivity]. }
     rewrite He, H0 in H. cbn [bind] in H.
     change (run_generators nonstr (ns_only ns) m0) with (Ok m0 : res (list resource)) in H. cbn [bind] in H.
@@ -122,6 +122,7 @@ Section Bridge.
       - destruct (ns_one_keeps ns r0 r1 ltac:(assumption) Hone) as [A B]. split; [exact A|congruence]. }
     rewrite (drop_empties_nonempty m1) in H by (eapply Forall_impl; [|exact Hm1]; intros r [A _]; exact A).
     rewrite (mapM_hash_id m1) in H by (eapply Forall_impl; [|exact Hm1]; intros r [_ B]; exact B). cbn [bind] in H.
+    destruct (hash_check m1) as [[]| | |]; cbn [bind] in H; try discriminate.
     destruct pipe_rules as [rules| | |] eqn:ER; cbn [bind] in H; try discriminate.
     destruct (nameref_transform pipe_cs nonstr rules m1) as [m2| | |] eqn:EN; cbn [bind] in H; try discriminate.
     destruct (ignore_local m2) as [m2l| | |] eqn:EL; cbn [bind] in H; try discriminate.
